@@ -4,9 +4,13 @@ line per request on stdout (`ok …` / `err <Class>` / `bad-op`).  Imports model
 only (no Mathlib) so it links natively.
 -/
 import DaskArrayModel.Drv.Slicing
+import DaskArrayModel.Drv.Rechunk
+
+def handlers : List (String → List String → Option String) :=
+  [Dask.Drv.Slicing.handle, Dask.Drv.Rechunk.handle]
 
 def dispatch (cmd : String) (args : List String) : String :=
-  match Dask.Drv.Slicing.handle cmd args with
+  match handlers.findSome? (fun h => h cmd args) with
   | some r => r
   | none => "bad-op"
 
